@@ -1,5 +1,191 @@
-(* Development target for the shared LMDB model (not a property). *)
-From NR Require Import Lib.Base KVM.Engine KVM.Keys KVM.Scan.
+(* LMDB query path (shared model KVM): the LMDB halves of C01 / C02 / C11 / C12.
+   Theorem statements only; proofs are in KVM/Proofs_*.v and KVM/Thm_C*.v.
+   Model: KVM/{Engine,Keys,Scan,Plan,Match,Exec}.v mirror kv.py's Index.scanner, MultiIndex, planner,
+   compile_match_from_query, matcher, execute_one_plan, executor; KVM/ScanSpec.v and KVM/Spec.v say what they are for;
+   KVM/Coherent.v is the store invariant proved by the write path (KVW). *)
+From NR Require Import Lib.Base Lib.Nip01 KVM.Engine KVM.Keys KVM.Scan KVM.ScanSpec KVM.Order KVM.Coherent
+  KVM.Plan KVM.Match KVM.Exec KVM.Spec KVM.Proofs_Scan KVM.Proofs_Blocks KVM.Proofs_ScanTop KVM.Proofs_Coherent
+  KVM.Proofs_Match KVM.Proofs_Exec KVM.Proofs_Hit KVM.Proofs_Const KVM.Thm_C01 KVM.Thm_C02 KVM.Thm_C11 KVM.Thm_C12.
+From NR Require Gen.KVConst.
+Open Scope list_scope. Open Scope Z_scope.
+
+(* ===== the scanner (heart of C02 / C11 / C08 / C09) ===== *)
+(* Index.scanner returns exactly the entries of the requested blocks inside the closed window, per match in
+   order, newest first, for EVERY strictly sorted keyspace of byte strings that contains the tombstone, whose
+   long keys end with 00 ++ id(32) (Shaped) and whose first key does not belong to the scanned index (floor_ok):
+   foreign keys next to every block boundary, values extending / prefixing the requested one, values with the
+   00 separator inside, ids starting ff, neighbouring index prefixes included.  Never out of fuel. *)
+Theorem KVM_scanner_correct : scanner_correct_statement.
+Proof. exact scanner_correct. Qed.
+Print Assumptions KVM_scanner_correct.
+
+Theorem KVM_scanner_correct_coherent : forall d i ms since until ev,
+  Coherent d ->
+  (forall cms, compile (map (to_key i) ms) = Some cms -> (cms <> [] \/ i = IxCreated) /\ (i = IxIds -> Desc cms)) ->
+  index_scanner (keys d) i ms since until ev = scan_spec (keys d) i ms since until ev.
+Proof. exact scanner_correct_coherent. Qed.
+Print Assumptions KVM_scanner_correct_coherent.
+
+(* ===== C01-kv ===== *)
+Theorem C01_kv_answer_sound : forall d p e, In e (execute_one_plan d p) ->
+  exists i, get (primary_key_of i) d = Some (REvent e) /\ residual (p_query p) e = true.
+Proof. exact kv_answer_sound. Qed.
+Print Assumptions C01_kv_answer_sound.
+
+Theorem C01_kv_residual_may_match : forall f e, wf_filter f -> hex64 (w_id e) = true -> hex64 (w_pubkey e) = true ->
+  residual (plan_items f) e = true -> may_match f e = true.
+Proof. exact kv_residual_may_match. Qed.
+Print Assumptions C01_kv_residual_may_match.
+
+Theorem C01_kv_reads_only : forall d1 d2 p, keys d1 = keys d2 ->
+  (forall i, get (primary_key_of i) d1 = get (primary_key_of i) d2) -> execute_one_plan d1 p = execute_one_plan d2 p.
+Proof. exact kv_exec_reads_only. Qed.
+Print Assumptions C01_kv_reads_only.
+
+Theorem C01_kv_sound : forall dl mx d fs e,
+  KVConst.exec_interpolations_ok = true -> Coherent d -> Forall wf_filter fs -> In e (answer_kv dl mx d fs) ->
+  stored d e /\ exists f, In f (firstn maximum_plans fs) /\ may_match f e = true.
+Proof. exact C01_kv. Qed.
+Print Assumptions C01_kv_sound.
+
+(* ===== C02-kv ===== *)
+Theorem C02_kv_complete_partial : forall dl mx d f e,
+  Coherent d -> (forall x, stored d x -> tags_ok x) -> wf_filter f -> ids_desc f ->
+  range_scan_refused f = false ->
+  stored d e -> must_match f e = true -> delegator_only_match f e = false ->
+  exists p, plan_one dl mx f = Some p /\
+    ((forall n, p_limit p = Some n -> at_most d (may_match f) n) ->
+     In e (execute_one_plan d p) /\ count_id e (execute_one_plan d p) = 1%nat).
+Proof. exact C02_kv_partial. Qed.
+Print Assumptions C02_kv_complete_partial.
+
+Theorem C02_kv_residual_complete : forall dl mx d f p e,
+  Coherent d -> wf_filter f -> ids_desc f -> plan_one dl mx f = Some p ->
+  (forall n, p_limit p = Some n -> at_most d (may_match f) n) ->
+  stored d e -> residual (plan_items f) e = true ->
+  In e (execute_one_plan d p) /\ count_id e (execute_one_plan d p) = 1%nat.
+Proof. exact kv_plan_complete. Qed.
+Print Assumptions C02_kv_residual_complete.
+
+Theorem C02_kv_at_most_once_per_filter : forall dl mx d fs e,
+  Coherent d -> Forall wf_filter fs -> stored d e ->
+  (count_id e (answer_kv dl mx d fs) <= count_occ_b (fun f => may_match f e) (firstn maximum_plans fs))%nat.
+Proof. exact C02_kv_at_most. Qed.
+Print Assumptions C02_kv_at_most_once_per_filter.
+
+(* the two guards are genuinely needed (open findings F07 and "range scan refused") *)
+Theorem C02_kv_refuted_delegator : exists f e,
+  must_match f e = true /\ delegator_only_match f e = true /\ residual (plan_items f) e = false.
+Proof.
+  exists {| f_ids := None; f_authors := Some [pys "aa"]; f_kinds := None; f_since := None; f_until := None;
+            f_limit := None; f_tags := [] |},
+         {| w_id := pys "01"; w_pubkey := pys "bb"; w_created := 5; w_kind := 1;
+            w_tags := [[pys "delegation"; pys "aa"; pys "c"; pys "s"]]; w_content := []; w_sig := [] |}.
+  vm_compute. auto.
+Qed.
+Print Assumptions C02_kv_refuted_delegator.
+
+Theorem C02_kv_refuted_range_scan : exists f e,
+  must_match f e = true /\ skipped f = false /\ plan_one None (Some 5) f = None.
+Proof.
+  exists {| f_ids := None; f_authors := None; f_kinds := None; f_since := Some 0; f_until := None;
+            f_limit := Some 3; f_tags := [] |},
+         {| w_id := pys "01"; w_pubkey := pys "bb"; w_created := 5; w_kind := 1; w_tags := []; w_content := []; w_sig := [] |}.
+  vm_compute. auto.
+Qed.
+Print Assumptions C02_kv_refuted_range_scan.
+
+(* ===== C11-kv ===== *)
+Theorem C11_kv_answer_exact : forall dl mx d f p,
+  Coherent d -> wf_filter f -> ids_desc f -> plan_one dl mx f = Some p ->
+  (forall n, p_limit p = Some n -> at_most d (may_match f) n) ->
+  forall e, In e (execute_one_plan d p) <-> (stored d e /\ P_kv f e = true).
+Proof. exact answer_exact_kv. Qed.
+Print Assumptions C11_kv_answer_exact.
+
+Theorem C11_kv_P_sound : forall f e, wf_filter f -> hex64 (w_id e) = true -> hex64 (w_pubkey e) = true ->
+  P_kv f e = true -> may_match f e = true.
+Proof. exact P_kv_may_match. Qed.
+Print Assumptions C11_kv_P_sound.
+
+Theorem C11_kv_P_complete_partial : forall f e, wf_filter f -> hex64 (w_id e) = true -> hex64 (w_pubkey e) = true -> tags_ok e ->
+  must_match f e = true -> delegator_only_match f e = false -> range_scan_refused f = false -> P_kv f e = true.
+Proof. exact must_match_P_kv. Qed.
+Print Assumptions C11_kv_P_complete_partial.
+
+Theorem C11_kv_unrelated_data : forall dl mx d1 d2 f p,
+  Coherent d1 -> Coherent d2 -> wf_filter f -> ids_desc f -> plan_one dl mx f = Some p ->
+  (forall n, p_limit p = Some n -> at_most d1 (may_match f) n) ->
+  (forall n, p_limit p = Some n -> at_most d2 (may_match f) n) ->
+  (forall e, may_match f e = true -> (stored d1 e <-> stored d2 e)) ->
+  forall e, In e (execute_one_plan d1 p) <-> In e (execute_one_plan d2 p).
+Proof. exact C11_kv_frame. Qed.
+Print Assumptions C11_kv_unrelated_data.
+
+Theorem C11_kv_monotone_in_filter_partial : forall dl mx d f' f p',
+  Coherent d -> wf_filter f' -> wf_filter f -> ids_desc f -> refines f' f ->
+  range_scan_refused f = false ->
+  plan_one dl mx f' = Some p' ->
+  exists p, plan_one dl mx f = Some p /\
+    ((forall n, p_limit p = Some n -> at_most d (may_match f) n) ->
+     forall e, In e (execute_one_plan d p') -> In e (execute_one_plan d p)).
+Proof. exact C11_kv_monotone_partial. Qed.
+Print Assumptions C11_kv_monotone_in_filter_partial.
+
+(* the guard is needed: the refused filter {} is refined by {"kinds":[1]}, which has a plan *)
+Theorem C11_kv_monotone_refuted : exists f' f,
+  refines f' f /\ plan_one None (Some 5) f = None /\ plan_one None (Some 5) f' <> None.
+Proof.
+  exists {| f_ids := None; f_authors := None; f_kinds := Some [1]; f_since := None; f_until := None; f_limit := None; f_tags := [] |},
+         {| f_ids := None; f_authors := None; f_kinds := None; f_since := None; f_until := None; f_limit := None; f_tags := [] |}.
+  split; [|split; [reflexivity|discriminate]].
+  unfold refines, opt_sub; simpl. repeat split; try discriminate. intros n vs [].
+Qed.
+Print Assumptions C11_kv_monotone_refuted.
+
+Theorem C11_kv_union_of_single_values : forall dl mx d f l p,
+  Coherent d -> wf_filter f -> ids_desc f -> f_kinds f = Some l -> plan_one dl mx f = Some p ->
+  (forall n, p_limit p = Some n -> at_most d (may_match f) n) ->
+  forall e, In e (execute_one_plan d p) <->
+            exists k pk, In k l /\ plan_one dl mx (set_kinds f [k]) = Some pk /\ In e (execute_one_plan d pk).
+Proof. exact C11_kv_union_kinds. Qed.
+Print Assumptions C11_kv_union_of_single_values.
+
+Theorem C11_kv_union_tag_values : forall tags n vs, tag_clause tags n vs = existsb (fun v => tag_clause tags n [v]) vs.
+Proof. exact tag_clause_union. Qed.
+Print Assumptions C11_kv_union_tag_values.
+Theorem C11_kv_union_hex_values : forall field vals, length field = 64%nat -> Forall (fun v => (64 <= length v)%nat) vals ->
+  hex_clause field vals = existsb (fun v => hex_clause field [v]) vals.
+Proof. exact hex_clause_union. Qed.
+Print Assumptions C11_kv_union_hex_values.
+
+(* ===== C12-kv ===== *)
+Theorem C12_kv_never_more_than_allowed : forall mx d f p, plan_one None (Some mx) f = Some p -> 0 <= eff_limit mx f ->
+  Z.of_nat (length (execute_one_plan d p)) <= eff_limit mx f.
+Proof. exact C12_kv_cap. Qed.
+Print Assumptions C12_kv_never_more_than_allowed.
+
+Theorem C12_kv_newest_kept_partial : forall dl mx d f p x y,
+  Coherent d -> (forall e, stored d e -> tags_ok e) -> wf_filter f -> ids_desc f -> plan_one dl mx f = Some p ->
+  single_block_plan p ->
+  stored d x -> must_match f x = true -> delegator_only_match f x = false ->
+  In y (execute_one_plan d p) -> ~ In x (execute_one_plan d p) -> w_created x <= w_created y.
+Proof. exact C12_kv_newest_partial. Qed.
+Print Assumptions C12_kv_newest_kept_partial.
+
+(* a limit that is not reached truncates nothing: C02_kv_complete_partial above (at_most) *)
+
+(* ===== the model's constants are the source's ===== *)
+Theorem KVM_constants : idx_prefix IxTags = KVConst.prefix_tags /\ tombstone = KVConst.tombstone_key /\
+  Plan.maximum_plans = KVConst.maximum_plans /\ (forall k c i, entry_key k c i = fill KVConst.entry_format [k; c; i]) /\
+  (forall t, Coherent.tag_indexable t = KVConst.tag_indexable t).
+Proof.
+  split; [apply prefixes_agree|]. split; [exact tombstone_agrees|]. split; [exact maximum_plans_agrees|].
+  split; [exact entry_key_format|exact tag_indexable_agrees].
+Qed.
+Print Assumptions KVM_constants.
+
+(* ===== non-vacuity ===== *)
 Example scanner_empty_db :
   index_scanner [] IxKinds [MInt 1] None None (fun _ => true) = SOk [].
 Proof. vm_compute. reflexivity. Qed.
